@@ -533,7 +533,8 @@ def correspond(R, header, report_fn, cases, name, point, shard=400, timeout=900)
                                 {'recipe': c['recipe'], 'row': row, 'correspondence': point, 'input_found': True})
         else:
             drift.append((c, row))
-            if i == '0' and not (cls != '-' and cls in kf):
+            # a listed class only excuses inputs on which the unchanged code (= the model) already failed the spec
+            if i == '0' and not (s == '0' and cls != '-' and cls in kf):
                 found += 1
                 R.violation('%s: implementation differs from the model AND from the spec on this input' % point,
                             {'recipe': c['recipe'], 'row': row, 'correspondence': point, 'input_found': True})
